@@ -28,13 +28,16 @@ type G struct {
 	// conversion order / duplicate counting are confirmed present.
 	NonFlatConv  bool
 	NonFlatCount bool
+	// PosLits, when set, replaces the integers drawn for positional predicates.
+	PosLits []string
 	// Prefixes, when set, are the prefixes name tests are drawn with ("" = unprefixed).
 	Prefixes []string
 }
 
 // NewG builds a generation context with the default alphabets.
 func NewG(t *rapid.T, d *xdoc.Doc) *G {
-	return &G{T: t, Env: &xref.Env{Doc: d}, ElNames: ElNames3, AtNames: AtNames2,
+	// guidance works on a small budget: when it runs out the draw is simply unguided
+	return &G{T: t, Env: &xref.Env{Doc: d, Limit: 150000}, ElNames: ElNames3, AtNames: AtNames2,
 		StrLits: []string{"1", "2", "t", "10", "x y", "", "a", "b"},
 		NumLits: []string{"0", "1", "2", "10", "1.5"}, Guide: 7}
 }
@@ -136,7 +139,11 @@ func (g *G) advance(cur xref.NodeSet, s interface{}) xref.NodeSet {
 		case xast.DSlash:
 			next = append(next, xref.AxisNodes("descendant-or-self", n)...)
 		case *xast.Step:
-			next = append(next, g.Env.StepNodes(st, n)...)
+			r, ok := g.Env.TryStepNodes(st, n)
+			if !ok {
+				return nil // guidance budget exhausted: go on unguided
+			}
+			next = append(next, r...)
 		}
 	}
 	out := xref.SortSet(next)
@@ -405,7 +412,7 @@ func (g *G) BoolPred(cands xref.NodeSet, depth int) xast.Expr {
 
 // PosPred draws a positional predicate of the C03 fragment.
 func (g *G) PosPred() xast.Expr {
-	n := &xast.Num{Lit: g.pick([]string{"1", "2", "1", "2", "3", "3", "4", "5", "6"}, "posn")}
+	n := &xast.Num{Lit: g.pick(g.posLits(), "posn")}
 	switch g.intn(6, "poskind") {
 	case 0, 1:
 		return n
@@ -475,9 +482,16 @@ func (g *G) MixedPred(cands xref.NodeSet, depth int) xast.Expr {
 	return p
 }
 
+func (g *G) posLits() []string {
+	if len(g.PosLits) > 0 {
+		return g.PosLits
+	}
+	return []string{"1", "2", "1", "2", "3", "3", "4", "5", "6"}
+}
+
 // PosN draws the integer of a [n] predicate.
 func (g *G) PosN() *xast.Num {
-	return &xast.Num{Lit: g.pick([]string{"1", "2", "1", "2", "3", "3", "4", "5", "6"}, "n")}
+	return &xast.Num{Lit: g.pick(g.posLits(), "n")}
 }
 
 // GroupN draws (flat)[n] or (//name)[n], optionally followed by a boolean predicate.
